@@ -10,6 +10,10 @@ RACE_HARNESS = os.path.join(BUILD, "harness_race")
 
 CLASS_PATTERNS = [r"x\s", r"\S", r"\d+", r"\D", r"\w", r"\W", r"[\s,]", r"[^\s]", r"[\d\w]", r"[^\w]", "[[:space:]]", "[^[:blank:]]", "[[:alpha:][:digit:]]",
                   "[^[:xdigit:]]", "[[:word:]]x", r"\S\s", r"a\.b\|", "[^a-c]", "."]
+# rejected patterns of every kind (a recorded semantic error, a syntax error, both at once) between accepted ones: whatever a
+# failed parse leaves behind must not reach the next one
+REJECTED_PATTERNS = ["a{3,1}(", "[z-a]|", "a{3,1}", "[z-a]", "(", "a|", "x{2,1}y(", "[b-a]{4,2})", "\\", "[", "a{", "(a|b", "a{3,1}|b", ")", "*a"]
+ACCEPTED_AFTER = ["ab", "a+", "[a-z]+", "x{1,3}", "(a|b)*c", "q"]
 
 
 def build_race(ctx):
@@ -66,6 +70,9 @@ def run(ctx):
     # every shared table of the pattern parsers is read by some item: each class, plain and negated, alone and in brackets
     directed = ["P" + hx(p.encode()) for p in CLASS_PATTERNS]
     items += directed
+    rejected = ["P" + hx(p.encode()) for p in REJECTED_PATTERNS]
+    after = ["P" + hx(p.encode()) for p in ACCEPTED_AFTER]
+    items += rejected + after
     # isolated baselines: every item alone in a fresh process
     base = {}
     for it in items:
@@ -75,6 +82,7 @@ def run(ctx):
     # sequential processing in one process: all orders of groups of 4 items
     groups = [rng.sample(items, 4) for _ in range(6 if quick else 40)]
     groups += [rng.sample(directed, 4) for _ in range(6 if quick else 40)]
+    groups += [rng.sample(rejected, 2) + rng.sample(after, 2) for _ in range(8 if quick else 60)]
     lines, orders = [], []
     for g in groups:
         for perm in itertools.permutations(g):
@@ -96,7 +104,7 @@ def run(ctx):
     try:
         build_race(ctx)
         rounds = 12 if quick else 60
-        for g in [rng.sample(items, 8) for _ in range(4 if quick else 25)] + [rng.sample(directed, 8) for _ in range(3 if quick else 20)]:
+        for g in [rng.sample(items, 8) for _ in range(4 if quick else 25)] + [rng.sample(directed, 8) for _ in range(3 if quick else 20)] + [rng.sample(rejected, 4) + rng.sample(after, 4) for _ in range(3 if quick else 20)]:
             p = subprocess.run([RACE_HARNESS, "conc"], input=("%d %s\n" % (rounds, ",".join(g))).encode(), stdout=subprocess.PIPE, stderr=subprocess.PIPE, timeout=900,
                                env=dict(os.environ, GORACE="halt_on_error=0 history_size=2"))
             stats["concurrent_rounds"] += rounds
@@ -132,7 +140,7 @@ def run(ctx):
         if f["id"] == "F21" and stats["race_reports_dependency_state"] > 0:
             ctx.known_hits.append(f)
     cov = {"evaluations": stats["sequential_orders"] + stats["concurrent_rounds"], "distinct_nontrivial": len(distinct),
-           "rule": "specifications (definition sets, defect-seeded specifications), generated patterns and a fixed list of patterns that together read every class table (plain, negated, in brackets); after every item the harness prints emerge's package-level tables (Predefs, the EBNF grammar tables, terminalNames, RuneClasses members as stored, escapedChars) and compares them with their initial print; the result of a pattern includes the syntax tree as built; each alone in a fresh process (baseline); all 24 orders of groups of 4 in one process; 8 different items on 8 goroutines started together, repeated, in a harness built with -race; a race report is attributed to the owner of the state by the first non-runtime, non-standard-library frame; non-trivial = distinct item",
+           "rule": "specifications (definition sets, defect-seeded specifications), generated patterns and a fixed list of patterns that together read every class table (plain, negated, in brackets), and rejected patterns of every kind (semantic error, syntax error, both) mixed with accepted ones; after every item the harness prints emerge's package-level tables (Predefs, the EBNF grammar tables, terminalNames, RuneClasses members as stored, escapedChars) and compares them with their initial print; the result of a pattern includes the syntax tree as built; each alone in a fresh process (baseline); all 24 orders of groups of 4 in one process; 8 different items on 8 goroutines started together, repeated, in a harness built with -race; a race report is attributed to the owner of the state by the first non-runtime, non-standard-library frame; non-trivial = distinct item",
            "samples": [decode_hex_fields(items[0][1:])[:150], decode_hex_fields(items[-1][1:])[:80]], "outcomes": stats,
            "explanation": "partial: the frame theorem (disjoint private state + read-only shared data => every interleaving and every order give the isolated result) and the re-extracted, classified list of emerge's package-level variables carry the logic; data-race freedom itself rests on the race detector over the schedules that occur; the dependency's package-level hashers and shuffle generator are outside /repo (finding F21)",
            "trusted_base": TRUSTED_BASE + ["Go race detector", "translator fact `globals` (syntactic list of package-level variables)"]}
